@@ -445,7 +445,7 @@ class ErrorStack(deque):
 
         # last formula
         src = "\nFormula source:\n"
-        src += self[-1][0][OBJ].formula.source
+        src += self[-1][0][OBJ].formula.source or "<source not available>"
         result += "\n" + src
 
         return result
